@@ -1,7 +1,7 @@
 (* C18 — Hex helpers are mutually inverse and reject malformed text without panic.
    Statements only; proofs live in Proofs/HexProofs.v.  Strings are UTF-8 byte lists;
    unhexify returns Ok (Some bytes) | Ok None (= Err(ParseIntError)) | Panic. *)
-From BP7 Require Import Base.Prelude Model.Hex Proofs.HexProofs.
+From BP7 Require Import Base.Prelude Model.Hex Proofs.HexProofs Proofs.TableProofs.
 
 Theorem C18_unhex_hex : forall bs : list byte, unhexify (hexify bs) = Ok (Some bs).
 Proof. exact unhex_hex. Qed.
@@ -17,6 +17,14 @@ Proof. exact unhex_rejects. Qed.
 
 Theorem C18_total : forall s : list byte, no_panic (unhexify s).
 Proof. exact unhex_total. Qed.
+
+(* the exhaustive tie (Gen/Tables.v is rewritten from the compiled crate on every run): on EVERY single byte the library's hexify,
+   and on EVERY string of two ASCII characters the library's unhexify, answer what the model answers - all 256 + 16384 rows checked
+   by the kernel.  (hexify works byte by byte and unhexify pair by pair in the model: hexify_app / the pair loop of Model/Hex.v) *)
+Theorem C18_tie_hexify : forall b, b < 256 -> code_hexify b = hexify [n2b b].
+Proof. exact tie_hexify. Qed.
+Theorem C18_tie_unhexify : forall a b, a < 128 -> b < 128 -> code_unhex a b = unhex_answer a b.
+Proof. exact tie_unhex. Qed.
 
 (* non-vacuity: the premises are met by concrete non-trivial strings, and the classes named in the
    property are really outside the accepted set *)
@@ -36,3 +44,5 @@ Print Assumptions C18_unhex_hex.
 Print Assumptions C18_hex_unhex.
 Print Assumptions C18_rejects.
 Print Assumptions C18_total.
+Print Assumptions C18_tie_hexify.
+Print Assumptions C18_tie_unhexify.
